@@ -126,14 +126,17 @@ def run(R):
         ks = M.ask("rdef_keys", env.encode())
         keys[env] = {core.atom_bytes(k).decode(): (b == "true") for k, b in ks} if isinstance(ks, list) else {}
 
-    def run_cmd(sb, args, env_name, label, expect_fail=False, plan_required=False, globals_=("--no-auto-init", "-y"), either=False):
-        rc, o, e = sb.run(list(globals_) + args)
+    def run_cmd(sb, args, env_name, label, expect_fail=False, plan_required=False, globals_=("--no-auto-init", "-y"), either=False, cwd=None):
+        rc, o, e = sb.run(list(globals_) + args, cwd=cwd)
         stats["cli_runs"] += 1
         stats["by_command"][label] = stats["by_command"].get(label, 0) + 1
         R.case((label, tuple(args)), nontrivial=True)
-        ctx = {"args": list(globals_) + args, "label": label, "exit": rc, "stdout": o[:400].decode("utf-8", "replace"),
+        ctx = {"args": [a if isinstance(a, str) else repr(a) for a in list(globals_) + args], "label": label, "exit": rc, "stdout": o[:400].decode("utf-8", "replace"),
                "stderr": e[-300:].decode("utf-8", "replace")}
         doc, why = one_doc(o)
+        if rc not in (0, 1, 2, 3, 130) or b"panicked at" in e:
+            fails.append({"why": f"{label}: the command died (exit {rc}) instead of reporting success or failure: no document, undocumented status", **ctx})
+            return rc, None
         if rc != 0:
             stats["failing_runs"] += 1
             if not expect_fail and not either:
@@ -294,6 +297,20 @@ def run(R):
                                       (["rename", t, s], "RenameResult.json"), (["plan", s, t], "PlanResult.json")):
                         f.write_bytes(dmg(orig))
                         run_cmd(sb, cmd + ["--output", "json"], envn, f"{cmd[0]} ({target}: {dname})", either=True)
+        # a working directory / a search root whose own name is not valid UTF-8 (legal on Linux): nothing below it can be written
+        # into a JSON plan, so the document has to say so (no matches) or the command has to fail cleanly - never half a document
+        import os as _os
+        with cli.Sandbox(tree) as sb:
+            rb = _os.fsencode(str(sb.root))
+            for d in (rb + b"/w\xffork/src", rb + b"/plain/d\xfe"):
+                _os.makedirs(d)
+                with open(d + b"/a_" + s.encode() + b".txt", "wb") as fh:
+                    fh.write((s + " in an oddly named place\n").encode())
+            stats["non_utf8_root_runs"] = stats.get("non_utf8_root_runs", 0) + 1
+            for cmd, envn in ((["search", s], "PlanResult.json"), (["plan", s, t, "--dry-run"], "PlanResult.json"),
+                              (["rename", s, t, "--dry-run"], "RenameResult.json"), (["plan", s, t], "PlanResult.json")):
+                run_cmd(sb, cmd + ["--output", "json"], envn, f"{cmd[0]} (working directory with a non-UTF-8 name)", either=True, cwd=rb + b"/w\xffork")
+                run_cmd(sb, cmd + [b"d\xfe", "--output", "json"], envn, f"{cmd[0]} (search root with a non-UTF-8 name)", either=True, cwd=rb + b"/plain")
         # conflicting renames -> exit 1
         with cli.Sandbox(tree + [{"p": t + "_dir", "k": "d", "m": 0o755}]) as sb:
             run_cmd(sb, ["rename", s, t, "--output", "json"], "RenameResult.json", "rename (occupied destination)", expect_fail=True)
